@@ -4035,6 +4035,68 @@ def spec_at_rule_skip(ctx, make_exe):
             raise Inconclusive("result shape not recovered")
     return {"function": f.name, "paths": len(outs), "tokens": N}
 
+# ----------------------------------------------------------------------------
+# SPEC: an element whose computed display is none contributes nothing at all (process_dom_node, element arm prologue)
+# ----------------------------------------------------------------------------
+
+def spec_hidden_element_nothing(ctx, make_exe):
+    import summaries
+    orig = summaries.summarize
+    f = the(ctx.find(r"^process_dom_node$"), "process_dom_node")
+    ctx.enums.setdefault("NodeData", ["Document", "Doctype", "Text", "Comment", "Element", "ProcessingInstruction"])
+    stop = set(n for n in f.order if re.search(r"QualName::expanded\(", " ".join(f.blocks[n].raw)) and not f.blocks[n].cleanup)
+    if not stop:
+        raise Inconclusive("the element-name dispatch of process_dom_node was not located")
+    exe = make_exe(loop_bound=6)
+    st = State()
+    node = VAgg("Node", None, [VOpaque("Cell", "parent"), VOpaque("RefCell", "children"),
+                               VAgg("NodeData::Element", "Element", [VOpaque("QualName", "elname"), VOpaque("RefCell<Vec<Attribute>>", "attrcell"),
+                                                                     VOpaque("RefCell", "tc"), VOpaque("bool", "mx")])])
+    inp = _agg(ctx, "RenderInput", handle=VOpaque("Rc<Node>", "handle"), parent_style=VOpaque("Rc<ComputedStyle>", "parent_style"))
+    hidden = exe.fresh("bool", "display_is_none")
+
+    def summ(exe_, st_, f_, bb_, callee, args, dest_ty):
+        c = callee.strip()
+        if re.search(r"^<Rc<Node> as Clone>::clone$", c):
+            return [(st_, VOpaque("Rc<Node>", "handle_clone"))]
+        if re.search(r"^<Rc<Node> as Deref>::deref$", c):
+            return [(st_, VRef("val", node))]
+        if re.search(r"^<Rc<ComputedStyle> as Deref>::deref$", c):
+            return [(st_, VRef("val", VOpaque("ComputedStyle", "parent")))]
+        if re.search(r"StyleData::computed_style$", c):
+            return [(st_, VOpaque("ComputedStyle", "computed"))]
+        if re.search(r"WithSpec::<css::Display>::val$", c):
+            yes = st_.clone()
+            yes.pc.append(hidden.e)
+            no = st_.clone()
+            no.pc.append(z3.Not(hidden.e))
+            return [(yes, VAgg("Option::Some", "Some", [VRef("val", VAgg("css::Display::None", "None", []))])),
+                    (no, VAgg("Option::None", "None", []))]
+        return orig(exe_, st_, f_, bb_, callee, args, dest_ty)
+    summaries.summarize = summ
+    try:
+        outs = exe.run(f.name, {1: inp, 2: VOpaque("&mut T", "err_out"), 3: VRef("val", VOpaque("HtmlContext", "context"))}, st, stop_at=stop)
+    finally:
+        summaries.summarize = orig
+    if not outs:
+        raise Inconclusive("no path returned")
+    n_hidden = n_shown = 0
+    for (s2, ret) in outs:
+        calls = [_short_callee(c[0]) for c in s2.calls if c[2] == f.name]
+        if isinstance(ret, tuple) and ret[0] == "stopped":
+            n_shown += 1
+            post(exe, s2, z3.Not(hidden.e), f.name, "an element is converted (reaches the dispatch on its name) only when it is not hidden")
+            continue
+        n_hidden += 1
+        ok = isinstance(ret, VAgg) and ret.variant == "Ok" and isinstance(ret.fields[0], VAgg) and ret.fields[0].variant == "Nothing"
+        post(exe, s2, hidden.e, f.name, "an element is skipped before the dispatch on its name only when its computed display is none")
+        post(exe, s2, z3.BoolVal(bool(ok)), f.name, "a hidden element yields nothing")
+        bad = [c for c in calls if re.match(r"(pending|pending_noempty|insert_child|new|new_styled|borrow)$", c)]
+        post(exe, s2, z3.BoolVal(not bad), f.name, "a hidden element contributes no node, marker or child (calls: %s)" % bad)
+    if not n_hidden or not n_shown:
+        raise Inconclusive("hidden / shown paths not both reached (%d / %d)" % (n_hidden, n_shown))
+    return {"function": f.name, "paths": len(outs)}
+
 
 ALL = [
     Spec("table_col_width", ["C06", "C02", "C01"], spec_table_col_width,
@@ -4243,6 +4305,11 @@ ALL = [
          bounds="every sequence of 4 (thorough: 5) tokens over {identifier, ( ) [ ] { } ;}, then end of input",
          assumptions=["parse_token delivers the scripted tokens; derived PartialEq on Token compares discriminants for bracket tokens"],
          replay=lambda fd, vals, info: {"harness": "m_at_rule_skip", "values": [[0]]}),
+    Spec("hidden_element_nothing", ["C18"], spec_hidden_element_nothing,
+         functions=["process_dom_node (element arm up to the dispatch on the element name)"],
+         bounds="one element; its computed display arbitrary",
+         assumptions=["computed_style is the subject of computed_style_sources / display_none_decls; DOM accessors by contract"],
+         replay=lambda fd, vals, info: {"harness": "m_display_none", "values": [[0]]}),
     Spec("link_footnotes", ["C08"], spec_link_footnotes,
          functions=["TextRenderer::start_link", "TextRenderer::end_link"],
          bounds="0-2 links already recorded; footnote flag symbolic",
